@@ -82,26 +82,31 @@ def rule_handlers(ctx, repo):
             if len(nh) < len(oh):
                 r.undecided('handlers:%s' % fi.name, fi.site, '%s has %d exception handlers, the confirmed method %d' % (fi.name, len(nh), len(oh)))
             continue
-        for ho, hn in zip(oh, nh):
-            n += 1
-            to, tn = norm(ho.type), norm(hn.type)
+        # handlers are compared as sets of resolved classes: order and nesting may change freely
+        def cls_of(h, mod_fi):
+            v = repo.fold(h.type, mod_fi.module, cls=mod_fi.cls)
+            return v.info if isinstance(v, ClassRef) else None
+        olds = [(norm(h.type), cls_of(h, fi), h) for h in oh]
+        news = [(norm(h.type), cls_of(h, fi), h) for h in nh]
+        gone = [o for o in olds if not any(o[0] == x[0] or (o[1] is not None and o[1] is x[1]) for x in news)]
+        come = [x for x in news if not any(o[0] == x[0] or (x[1] is not None and o[1] is x[1]) for o in olds)]
+        n += len(olds)
+        for o in olds:
+            if o not in gone:
+                r.ok('handler:%s:%s' % (fi.name, o[0][:30]), fi.site, 'catches %s' % o[0])
+        for to, co, ho in gone:
             key = 'handler:%s:%s' % (fi.name, to[:30])
-            if to == tn:
-                r.ok(key, common.site_of(fi, hn), 'catches %s' % to)
-                continue
-            co, cn = repo.fold(ho.type, fi.module, cls=fi.cls), repo.fold(hn.type, fi.module, cls=fi.cls)
-            if isinstance(co, ClassRef) and isinstance(cn, ClassRef):
-                if co.info is cn.info:
-                    r.ok(key, common.site_of(fi, hn), '%s is %s' % (tn, to))
-                elif repo.is_subclass(co.info, cn.info):
-                    r.violated(key, common.site_of(fi, hn), '%s catches `%s`, a base class of the confirmed `%s`: every other error reply of the node (each has its own registered class) is now '
-                               'converted as well instead of being raised as that class' % (fi.name, tn, to), sure=True)
-                elif repo.is_subclass(cn.info, co.info):
-                    r.violated(key, common.site_of(fi, hn), '%s catches only `%s`, a subclass of the confirmed `%s`: the other errors of that class are no longer converted' % (fi.name, tn, to), sure=True)
-                else:
-                    r.violated(key, common.site_of(fi, hn), '%s catches `%s` where the confirmed method catches the unrelated `%s`: the error it converted now escapes unconverted' % (fi.name, tn, to), sure=True)
+            wider = [x for x in come if co is not None and x[1] is not None and repo.is_subclass(co, x[1])]
+            narrower = [x for x in come if co is not None and x[1] is not None and repo.is_subclass(x[1], co)]
+            if wider:
+                tn, cn, hn = wider[0]
+                r.violated(key, common.site_of(fi, hn), '%s catches `%s`, a base class of the confirmed `%s`: every other error reply of the node (each has its own registered class) is now '
+                           'converted as well instead of being raised as that class' % (fi.name, tn, to), sure=True)
+            elif narrower:
+                tn, cn, hn = narrower[0]
+                r.violated(key, common.site_of(fi, hn), '%s catches only `%s`, a subclass of the confirmed `%s`: the other errors of that class are no longer converted' % (fi.name, tn, to), sure=True)
             else:
-                r.undecided(key, common.site_of(fi, hn), '%s catches `%s`, the confirmed method `%s`; the classes were not resolved' % (fi.name, tn, to))
+                r.undecided(key, fi.site, '%s no longer catches `%s` (it catches %s)' % (fi.name, to, [x[0] for x in news]))
     if n == 0:
         r.undecided('handlers', 'bitcoin/rpc.py:0', 'no handler of a confirmed proxy method found')
 
